@@ -253,10 +253,30 @@ package dastard
 //@   props C19
 //@   ensures result == (c / 281474976710656) % 65536
 
-// makeDirectory creates a run directory that did not exist before (file-system contract: see C06 notes).
+// makeDirectory: over the ghost file system fs (see the configuration contracts: fs[path] == 0 means "does not
+// exist"), the run directory it returns did NOT exist before the call and exists afterwards -- a new run never
+// re-uses (and overwrites) the directory of an earlier run, whatever numbers are already taken.
+//@ ufunc isnotexist(e error) bool
+//@ ufunc joindir(p string) string
+//@ extern func os.Stat
+//@   pure
+//@   ensures (result1 == nil ==> fs[name] != 0) && (isnotexist(result1) ==> result1 != nil && fs[name] == 0)
+//@ extern func os.MkdirAll
+//@   modifies fs
+//@   ensures (result == nil ==> fs == upd(old(fs), path, ite(old(fs[path]) == 0, 4, old(fs[path])))) && (result != nil ==> fs == old(fs))
+//@ extern func path/filepath.Join
+//@   pure
+//@   ensures len(elem) >= 1 ==> joindir(result) == elem[0]
+//@ extern func fmt.Sprintf
+//@   pure
 //@ func makeDirectory
-//@   trusted
-//@   modifies nothing
+//@   props C06
+//@   ensures fails: len(basepath) == 0 ==> result1 != nil
+//@   ensures newdir: result1 == nil ==> old(fs[joindir(result0)]) == 0 && fs[joindir(result0)] != 0
+//@   modifies fs
+//@   loop 1
+//@     invariant 0 <= i && i <= 10000
+//@     invariant kept: forall p string :: {fs[p]} p != todayDir ==> fs[p] == old(fs[p])
 
 //@ func (*AnySource).writeControlStart
 //@   props C06
